@@ -413,7 +413,7 @@ func (sc *c43Scenario) caseObj(w *world, drains []c43Drain) map[string]any {
 
 func TestC43(t *testing.T) {
 	rec := evi.New(t, "C43", evi.Exploration,
-		"one case = pipeline config (1..16 workers per stage, validation on/off, buffer 1..64) + 1..3 rounds of [1..6 blocks submitted, optional pause, WaitForDrain; optionally 1..3 more blocks submitted by another goroutine during the wait]; every block gets generated hold times (0, 0.1..5 ms, or 8..45 ms = longer than the 10 ms poll) inside its decode worker, validate worker and ApplyFunc; max-pending limit drawn from {default,1,2,3,5}; 1 in 4 direct cases is an overflow shape (limit 1..5, >= 3 workers per stage, one or two early blocks held 12..85 ms inside a decode/validate worker while limit-1..limit+7 later blocks overtake them, released in generated order, the wait begins before / between / after the releases); ~25% of the cases hold one block 450 ms in one place with 1..2 workers per stage and start the wait 200 ms late; non-trivial = a WaitForDrain returned nil in a round where a block submitted before the call was inside a worker or ApplyFunc while the wait was in progress; distinct by config+rounds")
+		"one case = pipeline config (1..16 workers per stage, validation on/off, buffer 1..64) + 1..3 rounds of [1..6 blocks submitted, optional pause, WaitForDrain; optionally 1..3 more blocks submitted by another goroutine during the wait]; every block gets generated hold times (0, 0.1..5 ms, or 8..45 ms = longer than the 10 ms poll) inside its decode worker, validate worker and ApplyFunc; max-pending limit drawn from {default,1,2,3,5}; 1 in 4 direct cases is an overflow shape (limit 1..5, >= 3 workers per stage, one or two early blocks held 12..85 ms inside a decode/validate worker while limit-1..limit+7 later blocks overtake them, released in generated order, the wait begins before / between / after the releases); ~25% of the cases hold one block 450 ms in one place with 1..2 workers per stage and start the wait 200 ms late; 1 case in 7 is a gate-driven backpressure case (buffer 1..3, 1..2 workers, block #1 held at a generated place by a harness gate, 3..13 further submissions with contexts expiring after 0.3..5 ms or already cancelled so that some fail while blocked on the full queue, further accepted blocks held by gates, WaitForDrain started while blocks are held, gates opened one by one >= 12 ms apart, PendingCount() read after every step); every direct round also reads PendingCount() right before the wait and at the end of the case; non-trivial = a WaitForDrain returned nil in a round where a block submitted before the call was inside a worker or ApplyFunc while the wait was in progress; distinct by config+rounds")
 	defer rec.Finish()
 	rec.Assume(
 		"a block counts as submitted before the wait iff its Submit returned before WaitForDrain was called (logical clock); the return instant is read right after WaitForDrain returns",
@@ -428,8 +428,12 @@ func TestC43(t *testing.T) {
 		}
 	}()
 	rec.Check(func(rt *rapid.T) {
-		if rapid.IntRange(0, 5).Draw(rt, "mode") == 5 {
+		switch rapid.IntRange(0, 6).Draw(rt, "mode") {
+		case 6:
 			c43ClientCase(rec, rt, drainTimeouts)
+			return
+		case 5:
+			c43BackpressureCase(rec, rt, drainTimeouts)
 			return
 		}
 		sc := genC43(rt)
@@ -461,6 +465,7 @@ func TestC43(t *testing.T) {
 			if rd.Pause > 0 {
 				time.Sleep(rd.Pause)
 			}
+			w.samplePending("before WaitForDrain")
 			var during <-chan struct{}
 			if len(rd.During) > 0 {
 				during = w.runSubmitters(rd.During)
@@ -483,9 +488,14 @@ func TestC43(t *testing.T) {
 		if !complete {
 			dump = clipStr(stackOfAll(), 30000)
 		}
+		endPC := 0
+		if complete {
+			endPC = w.p.PendingCount() // every Submit returned, every accepted block left Results()
+		}
 		probs := w.finish()
 		fs, okDrains, heldDuring := judgeC43(w, drains)
-		rec.EvalN(len(drains))
+		fs = append(fs, judgePendingCount(w, complete, endPC)...)
+		rec.EvalN(len(drains) + len(w.samples))
 
 		heldZero := false
 		for _, e := range w.ev {
@@ -591,4 +601,36 @@ func c43ClientCase(rec *evi.Recorder, rt *rapid.T, drainTimeouts *int) {
 	for _, f := range fs {
 		rec.Fail(rt, f.key, f.what, sc.caseObj(o))
 	}
+}
+
+// judgePendingCount checks the counter invariants that follow from the
+// statement (WaitForDrain succeeds exactly when PendingCount() reads 0):
+// a reading of PendingCount() is never below the number of blocks the harness
+// knows to have been accepted before and unfinished after the reading, and
+// once every Submit has returned and every accepted block has left Results()
+// it reads 0 (a negative or left-over count means WaitForDrain can succeed
+// early resp. never again).
+func judgePendingCount(w *world, complete bool, endPC int) (fs []c43Finding) {
+	w.mu.Lock()
+	defer w.mu.Unlock()
+	for _, sm := range w.samples {
+		if sm.pc < 0 {
+			fs = append(fs, c43Finding{"pending-count-negative", fmt.Sprintf("PendingCount() returned %d (%s, t=%d..%d)", sm.pc, sm.note, sm.t1.ts, sm.t2.ts)})
+			break
+		}
+	}
+	for _, sm := range w.samples {
+		if ids := w.knownUnfinished(sm); sm.pc < len(ids) {
+			fs = append(fs, c43Finding{"pending-count-below-unfinished", fmt.Sprintf("PendingCount() returned %d (%s, read between t=%d and t=%d) although %d blocks whose Submit had returned nil before were still unfinished afterwards: %v; WaitForDrain would return nil with %d of them unfinished", sm.pc, sm.note, sm.t1.ts, sm.t2.ts, len(ids), ids, len(ids)-sm.pc)})
+			break
+		}
+	}
+	if complete && endPC != 0 {
+		sign := "positive"
+		if endPC < 0 {
+			sign = "negative"
+		}
+		fs = append(fs, c43Finding{"pending-count-nonzero-after-all-finished:" + sign, fmt.Sprintf("after every Submit had returned and every accepted block had left Results(), PendingCount() = %d instead of 0 (WaitForDrain can no longer succeed / succeeds with blocks in flight)", endPC)})
+	}
+	return
 }
